@@ -26,7 +26,7 @@ COMPONENTS = {
              'importlib'],
     'stub': ['threading.Lock/RLock created by beartype -> SimLock/SimRLock', 'thread scheduling (baton + sys.settrace line events)',
              'sampler draw (constant per run)', 'process boundary = fork',
-             'warnings.catch_warnings serialised by a simulator lock in "avoid" runs (see known finding C15-catch-warnings)'],
+             'warnings.catch_warnings modelled as thread-local (no global state touched, nothing serialised) in "avoid" runs, real in the others (known finding C15-catch-warnings)'],
 }
 ASSUMPTIONS = [
     'interleavings are explored at source-line granularity inside beartype frames and generated wrappers under the GIL; '
@@ -131,6 +131,9 @@ def _flatten(oplist):
 
 def gen_strategy(rng):
     r = rng.random()
+    if r < 0.12:
+        return {'kind': 'hotpct', 'points': sorted(rng.sample(range(1, 400), rng.choice([1, 2, 3, 4]))), 'hot': HOT,
+                'p_cold': rng.choice([0.0, 0.001, 0.005])}
     if r < 0.35:
         return {'kind': 'uniform', 'p': rng.choice([0.005, 0.01, 0.02, 0.05, 0.1, 0.2])}
     if r < 0.7:
@@ -157,7 +160,7 @@ def generate(rng, run, tier):
     threads = [_flatten(t) for t in threads]
     prelude = [gen_op(rng, shared, claw_ok=False) for _ in range(rng.choice([0, 0, 1, 2, 3]))]
     strategy = gen_strategy(rng)
-    if rng.random() < 0.12:
+    if rng.random() < 0.2:
         # scenario "shallow pools": one sequential cold check leaves every object pool at depth 1, then all threads
         # run one cold check/decoration each with pre-emption concentrated on the pool / memo-table modules
         prelude = [{'op': 'is_bearable', 'h': {'k': 'seq', 'o': 'list', 'a': [{'k': 'cls', 'n': 'int'}]},
@@ -166,8 +169,8 @@ def generate(rng, run, tier):
         for _ in range(nthreads):
             h, o = _gen_hint_obj(rng, None)
             threads.append([{'op': rng.choice(['is_bearable', 'die', 'decor_call']), 'h': h, 'x': o, 'conf': None, 'pos': 'param'}])
-        strategy = {'kind': 'hot', 'p_hot': rng.choice([0.3, 0.5, 0.8]), 'p_cold': 0.0,
-                    'hot': ['utilcachepool', 'utilmapunbounded', 'utilcachecall', 'utilmaplru']}
+        strategy = {'kind': 'hotpct', 'points': sorted(rng.sample(range(1, 60), rng.choice([2, 3, 4]))),
+                    'hot': ['utilcachepool.py'], 'p_cold': rng.choice([0.0005, 0.001, 0.002])}
     avoid_cw = rng.random() < 0.8
     if avoid_cw:
         # known finding C15-catch-warnings: warnings.catch_warnings is process-global. Most runs steer around it:
@@ -304,26 +307,55 @@ def _hook_count():
     return ops.beartype_hook_count()
 
 
-def _install_cw_serialiser():
-    """Avoid switch: make warnings.catch_warnings sections mutually exclusive
-    between simulated tasks (model of 'as if serialised')."""
+def _install_cw_task_local(rec):
+    """Avoid switch for known finding C15-catch-warnings: model ``warnings.catch_warnings`` *as if it were
+    local to the calling thread* (what Python 3.14's context-aware warnings provide). Sections opened by one
+    simulated task neither touch process-global state nor see the warnings of another task; nothing is
+    serialised, so cold code generation of several threads still overlaps freely."""
     import warnings
     from sim import sched
-    lock = sched.SimRLock()
     cw = warnings.catch_warnings
-    orig_enter, orig_exit = cw.__enter__, cw.__exit__
+    stacks = {}         # task id -> list of entries: ['record', list] | ['ignore', category or None] | ['plain']
+
+    def tid():
+        s = sched.ACTIVE
+        if s is None:
+            return -1
+        t = s.by_ident.get(sched._get_ident())
+        return -1 if t is None else t.tid
 
     def enter(self):
-        lock.acquire()
-        return orig_enter(self)
+        st = stacks.setdefault(tid(), [])
+        if self._record:
+            log = []
+            st.append(['record', log])
+            return log
+        action = getattr(self, '_filter', None)
+        if action is not None and action[0] == 'ignore':
+            st.append(['ignore', action[1]])
+        else:
+            st.append(['plain'])
+        return None
 
     def exit_(self, *a):
-        try:
-            return orig_exit(self, *a)
-        finally:
-            lock.release()
+        st = stacks.get(tid())
+        if st:
+            st.pop()
+        return None
+
+    def show(message, category, filename, lineno, file=None, line=None):
+        st = stacks.get(tid()) or []
+        for e in reversed(st):
+            if e[0] == 'ignore' and (e[1] is None or issubclass(category, e[1])):
+                return
+            if e[0] == 'record':
+                e[1].append(warnings.WarningMessage(message, category, filename, lineno, file, line))
+                return
+        rec._show(message, category, filename, lineno, file, line)
     cw.__enter__ = enter
     cw.__exit__ = exit_
+    warnings.showwarning = show
+    return show
 
 
 def _install_cw_tracker(log):
@@ -390,10 +422,11 @@ def execute(case):
     boot.SAMPLER.sticky = case['draw']
     orig_cfs = ibe.cache_from_source
     cw_overlaps = []
-    if case.get('avoid_cw') and not case.get('serial'):
-        _install_cw_serialiser()
-    _install_cw_tracker(cw_overlaps)
     rec = ops.WarnRecorder().install()
+    if case.get('avoid_cw'):
+        _install_cw_task_local(rec)
+    else:
+        _install_cw_tracker(cw_overlaps)
     showwarning_expected = warnings.showwarning
     impl_expected = warnings._showwarnmsg_impl
     filters_expected = list(warnings.filters)
